@@ -159,3 +159,16 @@ def mkObj (digital viaAdd : Bool) (res : List Nat) (ss : Option (List Nat)) (xr 
     some { digital := digital, res := res, salloc := salloc, mcap := salloc, ss := ss, xr := xr, start := 1, stop := n }
 
 end EaselModel.Alphabet.Sq
+
+namespace EaselModel.Alphabet.Guess
+/-- `esl_msa_GuessAlphabet` in its two forms: `strict = false` — an undecided vote always falls through to the pooled second
+    pass (`Guess.msaGuess`); `strict = true` — the pooled pass runs only when NO row was classified, so an alignment with rows
+    called amino and rows called nucleic is indeterminate, as the header documents. Which form the tree has is read off the
+    code on every run (`Generated.AlphabetsAux.msaMixedProbe`). -/
+def msaGuessV (strict : Bool) (g : List Int → Nat) (rows : List (List Nat)) : Option (Bool × Nat) :=
+  let types := rows.map fun r => g (sqCount r (List.replicate 26 0) 0)
+  let t := msaVote types
+  if t ≠ 0 then some (true, t)
+  else if strict && types.any (· != 0) then some (false, 0)
+  else (msaPool rows (List.replicate 26 0) 0).map fun ct => (decide (g ct ≠ 0), g ct)
+end EaselModel.Alphabet.Guess
